@@ -105,7 +105,7 @@ def run(ctx):
         r = subprocess.run(["tar", "-xJf", hv, "-C", hd], capture_output=True)
         if r.returncode != 0:
             raise vlib.MachineryError("cannot unpack corpus/pool.tar.xz: %s" % r.stderr[-500:])
-        cap = 2500 if ctx.quick else 1 << 30
+        cap = 1500 if ctx.quick else 1 << 30
         nh = 0
         for d in sorted(os.listdir(hd)):
             nbytes = 0
@@ -138,7 +138,10 @@ def run(ctx):
         i, label, path, t, mode = w
         res = []
         for stage, d in ((1, s1), (2, s2)):
-            rc, out, err = vlib.cproc(d, None, t, args=(["-E"] if mode == "E" else []), path=path, timeout=60)
+            # both stages get the same generous stack: the frames of stage 2 are those of il2c+gcc (one C local per IL
+            # temporary), not of a QBE back end, so the nesting depth at which the recursive-descent parser exhausts an
+            # 8 MB stack is a property of the substitute back end, not of cproc
+            rc, out, err = vlib.cproc(d, None, t, args=(["-E"] if mode == "E" else []), path=path, timeout=60, stack=1 << 30)
             res.append({"e": "Run", "stage": stage, "input": i, "targ": t, "mode": mode, "out": h(out), "err": h(err), "rc": rc,
                         "_err": err[:300]})
         return res
